@@ -6,9 +6,11 @@ spec/at/MC_AT*.cfg          exhaustive model checking of ExactlyOnceDown/Up, Phy
                             NoCrossPID, NoGhost, FlushEmpty, AllAnswered (+ Progress under fairness)
 spec/at/AddrTransScen.tla   behaviours -> environment scenarios replayed on the real addresstranslator.Comp
 spec/at/AddrTransTrace.tla  port-event traces of the real component checked against AddrTrans
+harness/cmd/c16             driver: -scen (TLC behaviours), -random (adversarial bench), -system (real TLB/MMU/memory/engine)
 """
 import json
 import os
+import re
 
 import common
 import vlib
@@ -20,6 +22,19 @@ RULE = ('cases = environment scenarios (TLC -simulate behaviours of AddrTransSce
 TSPEC = {'dirs': ['at'], 'module': 'AddrTransTrace.tla', 'cfg': 'AddrTransTrace.cfg'}
 INVS = ('ExactlyOnceDown', 'ExactlyOnceUp', 'PhysAddr', 'PayloadPreserved', 'RspToOriginal', 'NoCrossPID', 'NoGhost',
         'FlushEmpty')
+
+
+def coverage_zero(out):
+    """Actions AND sub-actions (disjuncts, printed with a location suffix) that a -coverage run never took."""
+    zeros, seen = [], 0
+    for m in re.finditer(r'^<(\w+) line (\d+), col \d+ to line \d+, col \d+ of module (\w+)(?: \(([\d ]+)\))?>: (\d+):(\d+)',
+                         out, re.M):
+        seen += 1
+        if int(m.group(5)) == 0 and int(m.group(6)) == 0:
+            zeros.append('%s!%s@%s' % (m.group(3), m.group(1), m.group(4) or m.group(2)))
+    if seen < 10:
+        raise vlib.Infra('coverage output not understood (%d action lines)' % seen)
+    return sorted(set(zeros))
 
 
 def signature(bad, at, v2):
@@ -182,6 +197,18 @@ def features(recs):
     return f
 
 
+def env_idle_at_end(recs):
+    """System run: did the real neighbours answer everything they received (so that End is a strict check)?"""
+    took = {'EnvTakeLookup': set(), 'EnvTakeDown': set()}
+    ans = {'EnvTlbRsp': set(), 'EnvMemRsp': set()}
+    for r in recs:
+        if r['e'] in took:
+            took[r['e']].add(r['id'])
+        if r['e'] in ans:
+            ans[r['e']].add(r['id'])
+    return took['EnvTakeLookup'] <= ans['EnvTlbRsp'] and took['EnvTakeDown'] <= ans['EnvMemRsp']
+
+
 def nontrivial(recs):
     return bool(features(recs) & {'coalesced', 'tlb_out_of_order', 'flush'})
 
@@ -197,7 +224,7 @@ def run(ctx, selftest=False):
     # 1. design-level model checking
     r = ctx.tlc_expect_ok(['at'], 'MC_AT.tla', 'MC_AT.cfg', coverage=True, timeout=900)
     ctx.log('MC_AT: %d distinct states, depth %d' % (r.distinct, r.depth))
-    zeros = r.coverage_zero()
+    zeros = coverage_zero(r.out)
     ctx.cov['coverage_zero_actions'] = zeros
     if zeros:
         raise vlib.Infra('vacuity: actions never taken in MC_AT: %s' % zeros)
@@ -234,14 +261,16 @@ def run(ctx, selftest=False):
     ctx.sample({'scenario_from_TLC_behaviour': scen[0]['steps'][:12]})
     common.validate_and_triage(ctx, TSPEC, t1, {'cmd': 'c16', 'scenarios': scen})
 
-    # 3. code -> spec: seeded adversarial environments
+    # 3. code -> spec: seeded adversarial environments on the bench, and runs between real neighbours
+    #    (akita TLB + MMU + ideal memory controllers + DirectConnection + SerialEngine)
     nrand = 500 if thorough else 70
+    nsys = 200 if thorough else 25
     t2 = os.path.join(ctx.scratch, 'trace_rand.ndjson')
-    args = ['-random', nrand, '-reqs', 40 if thorough else 25, '-seed', ctx.seed, '-out', t2]
+    args = ['-random', nrand, '-system', nsys, '-reqs', 40 if thorough else 25, '-seed', ctx.seed, '-out', t2]
     p, stats2 = common.run_driver(ctx, drv, args)
     if stats2 is None:
         raise vlib.Infra('driver failed: ' + p.stdout[-2000:])
-    ctx.log('random environments: %s' % stats2)
+    ctx.log('random environments + system runs: %s' % stats2)
     common.validate_and_triage(ctx, TSPEC, t2, {'cmd': 'c16', 'args': args[:-1]})
 
     if ctx.violations:
@@ -257,9 +286,13 @@ def run(ctx, selftest=False):
         for x in features(recs):
             feat[x] = feat.get(x, 0) + 1
     ctx.log('trace features (number of traces showing each): %s' % feat)
-    for need in ('coalesced', 'tlb_out_of_order', 'flush', 'same_page_other_pid_pending', 'reply_met_full_bottom'):
+    # environment-driven patterns must have occurred (else the drivers are broken: infrastructure error)
+    for need in ('tlb_out_of_order', 'flush', 'same_page_other_pid_pending', 'reply_met_full_bottom'):
         if not feat.get(need):
             raise vlib.Infra('coverage: no trace exercised %r' % need)
+    # coalescing is the implementation's choice (the spec also accepts a translator that never coalesces)
+    if not feat.get('coalesced'):
+        ctx.notes.append('no trace showed a coalesced lookup: the implementation under test never coalesces')
     ctx.sample({'trace_excerpt': parts[-1][1][:10]})
     ctx.cov.update({'evaluations': len(parts), 'distinct_nontrivial': min(nt, len(distinct)),
                     'events_validated': stats['events'] + stats2['events'], 'trace_features': feat})
@@ -271,7 +304,15 @@ def run(ctx, selftest=False):
                 'coalesce_across_pids')
         cs = [c for c in cs if c[0] in keep]
     common.selftest_binding(ctx, TSPEC, t2, cs)
-    ctx.assumptions += ['akitabench mini engine and fake connection stand in for akita SerialEngine/DirectConnection',
+    sysruns = [recs for _, recs in parts if recs[0].get('mode') == 'system']
+    idle = sum(1 for recs in sysruns if env_idle_at_end(recs))
+    ctx.cov['system_runs'] = dict({k: v for k, v in stats2.items() if k.startswith('sys_')},
+                                  runs=len(sysruns), neighbours_idle_at_end=idle)
+    if idle < len(sysruns):
+        ctx.notes.append('%d system runs ended with a real neighbour still owing an answer (End is then not a strict check)'
+                         % (len(sysruns) - idle))
+    ctx.assumptions += ['bench mode: akitabench mini engine and fake connection stand in for akita SerialEngine/DirectConnection '
+                        '(system mode uses the real ones, with the real akita TLB, MMU and ideal memory controller)',
                         'port hooks observe every message of the component (akita v4.9.0 defaultPort)',
                         'the translation service answers each lookup once, from a page table that is fixed within a run',
                         'the controller follows the flush protocol (discard, then restart)',
